@@ -74,6 +74,8 @@ def _table_cell(tree, prog, module, table, row, event):
     node = find_assign(tree, table).value
     for rk, rv in zip(node.keys, node.values):
         if prog.fold(rk, module) == row:
+            if not isinstance(rv, ast.Dict):
+                raise EditFailed("row %s of %s is computed, not a dict display" % (row, table))
             for i, (ck, cv) in enumerate(zip(rv.keys, rv.values)):
                 if prog.fold(ck, module) == event:
                     return rv, i
